@@ -237,7 +237,52 @@ func (c *Ctx) messageNonEmpty(format ssa.Value, args ssa.Value) (bool, string) {
 		}
 		return false, fmt.Sprintf("format %q may render empty", f)
 	}
+	// a format taken from a read-only table under its comma-ok flag: every entry must be a non-empty format
+	if tab, _, isOK, field := tableLookup(c.P, format); tab != nil && !isOK && field == "" {
+		for _, e := range tab.entries {
+			f, ok := constString(e.val)
+			if !ok || !nonEmptyFormat(f) {
+				return false, "an entry of the format table " + tab.g.Name() + " may render empty"
+			}
+		}
+		if okGuard := lookupGuardedByOK(format); okGuard {
+			return true, fmt.Sprintf("format from the read-only table %s (%d non-empty formats), used only when the key was found", tab.g.Name(), len(tab.entries))
+		}
+		return false, "format from a table without its found flag: a missing key gives the empty format"
+	}
 	return false, "format is not a constant"
+}
+
+// lookupGuardedByOK: v is the value of a comma-ok lookup and every use of it lies under the ok flag being true.
+func lookupGuardedByOK(v ssa.Value) bool {
+	ex, ok := stripChange(v).(*ssa.Extract)
+	if !ok || ex.Index != 0 || ex.Referrers() == nil {
+		return false
+	}
+	var okFlag ssa.Value
+	for _, ref := range *ex.Tuple.Referrers() {
+		if e2, ok := ref.(*ssa.Extract); ok && e2.Index == 1 {
+			okFlag = e2
+		}
+	}
+	if okFlag == nil {
+		return false
+	}
+	for _, ref := range *ex.Referrers() {
+		if _, isDbg := ref.(*ssa.DebugRef); isDbg {
+			continue
+		}
+		guarded := false
+		for _, cd := range condsAt(ref.Block()) {
+			if cd.V == okFlag && cd.True {
+				guarded = true
+			}
+		}
+		if !guarded {
+			return false
+		}
+	}
+	return true
 }
 
 func positionProvenance(c *Ctx, v ssa.Value, depth int) (string, bool) {
